@@ -9,7 +9,7 @@ from encode import encode
 
 ID = 'C06'
 DOMAIN = 'gin/serialize'
-PROPS_FILES = ['Gin/Props/C06.lean', 'Gin/Props/C06b.lean', 'Gin/Props/C06c.lean']
+PROPS_FILES = ['Gin/Props/C06.lean', 'Gin/Props/C06b.lean', 'Gin/Props/C06c.lean', 'Gin/Props/C06d.lean']
 ANCHOR_FILES = ['config.py', 'config_parser.py', 'selector_map.py']
 RULE = ('3-5 registered probes with case-colliding and suffix-sharing names (incl. a class with a registered method), 3-12 '
         'bindings reached by programmatic binding and by parsing (nested values, long strings and bytes that pprint '
@@ -28,7 +28,9 @@ TRUSTED_BASE = ['Lean 4.33 kernel', 'axioms ⊆ {propext, Classical.choice, Quot
                 'repr / pprint.pformat of values is CPython\'s; only the structure (sections, selectors, order, which '
                 'values are printed) is modelled']
 ASSUMPTIONS = ['static registration (dynamic registration / import aliasing is C19)', 'identifiers ASCII (str.lower)']
-EXPLANATION = ('Lean theorems about emitDoc (only representable values are printed, macro/constant sections, sorted '
+EXPLANATION = ('Lean theorems about emitDoc: round trip for every configuration reachable by binding (roundtrip_reachable: '
+               're-binding the printed lines under their printed names into the cleared store restores exactly the '
+               'representable bindings), only representable values are printed, macro/constant sections, sorted '
                'insertion is order-insensitive for a total order) + structural comparison of config_str() with the '
                'mirror + the round-trip / permutation / idempotence / wrap / markdown oracles executed on the real code.')
 
